@@ -159,6 +159,47 @@ def run(chk):
                                "expect": gb.decode("utf-8", "replace"), "same_as": evalgen.render(b)}, True,
                               "update law %s fails: %s differs from %s" % (law, evalgen.render(a), evalgen.render(b)))
     chk.extra["history_law_instances"] = len(hist)
+    # ---- several context nodes, each updated relative to itself; every element of a sequence once, whatever keys it carries
+    import copy
+    multi = []
+    for _ in range(1200 if thorough else 200):
+        n_items = chk.rng.randrange(2, 5)
+        items = [{k: chk.rng.choice(evalgen.INTS[:6]) for k in chk.rng.sample(evalgen.KEYS, chk.rng.randrange(2, 4))} for _ in range(n_items)]
+        d = {"items": items, "x": chk.rng.choice(evalgen.INTS[:4])}
+        k1, k2 = chk.rng.choice(evalgen.KEYS), chk.rng.choice(evalgen.KEYS)
+        P = path_expr(("items",))
+        form = chk.rng.choice(["assign", "compound", "update"])
+        if form == "assign":
+            e = ("pipe", ("index", P, None), ("assign", ("getkey", k1), ("getkey", k2)))
+            want = []
+            for it in items:
+                it2 = copy.deepcopy(it)
+                if k2 in it:
+                    it2[k1] = it[k2]
+                elif k1 not in it:
+                    it2[k1] = None       # the writable LHS traversal creates the key; an RHS without result then writes nothing
+                want.append(it2)
+        elif form == "update":
+            e = ("pipe", ("index", P, None), ("update", ("getkey", k1), ("add", ("self",), lit(1))))
+            want = None if any(k1 not in it for it in items) else [dict(it, **{k1: it[k1] + 1}) for it in items]
+        else:
+            # an update that leaves duplicate recorded keys (appended elements), then every element once more
+            ints = [chk.rng.choice(evalgen.INTS[:5]) for _ in range(n_items)]
+            d = {"a": ints}
+            e = ("pipe", ("compound", "add", path_expr(("a",)), ("collect", ("union", lit(7), lit(8)))), ("compound", "add", ("index", path_expr(("a",)), None), lit(1)))
+            want = [{"a": [v + 1 for v in ints + [7, 8]]}]
+        if want is not None:
+            multi.append((e, d, want))
+    mout = evalcheck.impl_eval([(e, d) for e, d, _ in multi])
+    for (e, d, want), got in zip(multi, mout):
+        w = b"OK\n" + b"".join(evalcheck.ser(x) + b"\n" for x in want)
+        chk.count(("multi", evalgen.render(e), json.dumps(d)), nontrivial=True)
+        if got != w:
+            nviol += 1
+            if nviol <= 10:
+                chk.violation({"kind": "eval", "expr": evalgen.render(e), "doc": d, "impl": got.decode("utf-8", "replace"), "expect": w.decode("utf-8", "replace")},
+                              True, "an update over several matches did not give each match its own new value: " + evalgen.render(e))
+    chk.extra["multi_match_instances"] = len(multi)
     # ---- reading the new value must not change what it reads (frame for the RHS): end-of-sequence and missing-key reads
     rd = []
     fixed_docs = [{"a": 1, "b": [1, 2]}, {"b": []}, {"a": {"x": 1}, "b": [[1], [2, 3]]}, {"a": None, "b": {"c": [5]}}, [[1], [2]]]
